@@ -19,6 +19,10 @@ def catalogue():
         ('date', datetime.date(2020, 1, 2)), ('time', datetime.time(1, 2, 3)), ('time', datetime.time(1, 2, 3, 500)),
         ('datetime', datetime.datetime(2020, 1, 2, 3, 4, 5, tzinfo=utc)), ('datetime', pytz.timezone('Europe/Paris').localize(datetime.datetime(2020, 1, 2, 3, 4, 5))),
         ('list', [1.0, 'a']), ('dict', {'a': 1.0}),
+        # large numbers that differ by far more than the tolerance but by little relative to their size
+        ('num', 1500000000.0), ('num', 1500000001.0), ('num', 2500000.25), ('num', 2500000.252), ('qty', Quantity(86400000.0, 'ms')), ('qty', Quantity(86400000.05, 'ms')),
+        ('coord', Coordinate(89.99999, 179.99999)), ('coord', Coordinate(89.99998, 179.99999)),
+        ('list', [Quantity(1.0, 'm')]), ('list', [Quantity(1.0, 'ft')]), ('dict', {'k': Quantity(1.0, 'm')}), ('dict', {'k': Quantity(1.0, 'ft')}),
         # the same instant in another zone / the same wall time in a zone with the same offset: different cells (the zone is part of the value)
         ('datetime', pytz.timezone('Europe/Paris').localize(datetime.datetime(2020, 1, 2, 4, 4, 5))), ('datetime', pytz.timezone('Europe/Berlin').localize(datetime.datetime(2020, 1, 2, 3, 4, 5))),
     ]
@@ -32,8 +36,8 @@ def laws_pair(i, j, cat):
         try:
             res[name] = f()
         except TypeError as e:
-            if ka == 'qty' and kb == 'qty' and a.unit != b.unit:
-                res[name] = 'TypeError(units)'
+            if (ka == 'qty' and kb == 'qty' and a.unit != b.unit) or (ka == kb and ka in ('list', 'dict') and 'units differ' in str(e)):
+                res[name] = 'TypeError(units)'          # the documented exception, also met element-wise inside plain Python collections
             else:
                 out.append('%r vs %r: %s raised %r' % (a, b, name, e))
                 res[name] = None
@@ -153,6 +157,16 @@ def grid_laws(cat):
                 if r is not False or r2 is not True:
                     out.append(('diff', i, j, 'grids differing in one cell (%r vs %r) compare equal' % (a, b)))
     g = grid_with([[1, 2]])
+    import hszinc
+    ga = hszinc.Grid(version='3.0', columns=[('c', [('x', 1)])])
+    gb = hszinc.Grid(version='3.0', columns=[('c', [('y', 1)])])
+    for (what, one, other) in (('column metadata names', ga, gb), ('column metadata names', gb, ga)):
+        n += 1
+        try:
+            if (one == other) is not False or (one != other) is not True:
+                out.append(('shape', 0, 0, 'grid compares equal to one differing in %s' % what))
+        except Exception as e:
+            out.append(('shape', 0, 0, 'grid == (differs in %s) raised %r' % (what, e)))
     for (what, other) in (('row count', grid_with([[1, 2], [1, 2]])), ('column names', grid_with([[1, 2]], cols=('a', 'c'))), ('metadata names', grid_with([[1, 2]], meta={'x': 1})),
                           ('non-grid', 5), ('non-grid', None), ('non-grid', 'x')):
         n += 1
